@@ -339,8 +339,40 @@ class Run:
         return res
 
     # --------------------------------------------------------------- evidence
+    # second tie (docs/translator.md): areas of small pure Go code that the Go->Gallina translator regenerates from
+    # the source on every run and bridges to the hand-written model inside Coq; property -> areas whose model
+    # functions its theorems rest on.  (C20 and C19 call translate_tie themselves.)
+    TRANSLATION_TIES = {
+        "C01": ["transfer", "filename"], "C02": ["transfer"], "C03": ["transfer"], "C11": ["transfer"], "C13": ["transfer"],
+        "C05": ["transfer"], "C15": ["transfer"], "C06": ["transfer"], "C16": ["filename"], "C12": ["enum"],
+    }
+
+    def run_translation_ties(self, cov):
+        areas = self.TRANSLATION_TIES.get(self.prop)
+        if not areas or "translation_tie" in cov or os.environ.get("VERIF_NO_TRANSLATION_TIE"):
+            return
+        try:
+            import translate_tie
+        except ImportError:
+            return
+        ties = []
+        for a in areas:
+            try:
+                t = translate_tie.translation_tie(self, a)
+            except CheckBroken as e:
+                t = {"area": a, "status": "unavailable: %s" % str(e)[:200]}
+            self.log("translation tie %s: %s" % (a, t["status"]))
+            ties.append(t)
+            if t["status"].startswith("bridge-broken") and not self.violations:
+                # the translated code is no longer provably the model and the differential stream found no input
+                self.violation({"kind": "translation-bridge-broken", "area": a, "bridge": t["status"],
+                                "functions": t.get("functions"),
+                                "correspondence": "translator:%s:go2gallina %s" % (self.prop, a)}, no_input=True)
+        cov["translation_tie"] = ties
+
     def finish(self, coverage, assumptions=None, level="proof"):
         cov = dict(coverage)
+        self.run_translation_ties(cov)
         cov.setdefault("obligations", self.obligations)
         cov.setdefault("discharged", self.discharged)
         cov.setdefault("checker_cmd",
